@@ -19,6 +19,9 @@
 #include "pnotify.h"
 #include "panda_getopt_long.h"
 #include "preprocess_argv.h"
+#include <new>
+#include <cstdio>
+#include <cstdlib>
 #include <time.h>
 
 using std::cerr;
@@ -312,8 +315,22 @@ predefine_macro(CPPParser& parser, const string& inoption) {
   parser._manifests[macro->_name] = macro;
 }
 
+/**
+ * Called by operator new when memory runs out.  We must not let that turn
+ * into an exception: much of the output is put together in string streams,
+ * and a stream swallows an exception thrown while it grows its buffer and
+ * quietly drops the data, so that we would go on to write an incomplete file
+ * and report success.
+ */
+static void
+out_of_memory() {
+  fputs("interrogate: out of memory\n", stderr);
+  std::_Exit(1);
+}
+
 int
 main(int argc, char **argv) {
+  std::set_new_handler(out_of_memory);
   preprocess_argv(argc, argv);
 
   // Options and filenames may be mixed freely on our command line.  Don't let
@@ -650,6 +667,10 @@ main(int argc, char **argv) {
 
     std::ofstream output_code;
     output_code_filename.open_write(output_code);
+    if (output_buffer.fail()) {
+      // The preamble did not fit into memory.
+      output_code.setstate(std::ios::badbit);
+    }
 
     output_code << output_buffer_str;
 
